@@ -271,7 +271,7 @@ class Contract(object):
                  yield_count=None, yield_at=None, yield_post=None, loops=None, result=None, effect=None,
                  inline=False, opaque=(), note="", exc_ensures=None, modifies=(),
                  yield_seq=0, yield_encode=None, yields_eq=None, native_yields=None, native_post=None, findings=(),
-                 name=None, when=None):
+                 name=None, when=None, examples=None):
         self.target = target
         self.modname, self.qualname = target.split(":")
         self.params = params or {}
@@ -298,6 +298,7 @@ class Contract(object):
         self.findings = list(findings)
         self.name = name or target          # unique key of the contract (several contracts may share a target)
         self.when = when                    # call-site applicability: lambda over call arguments
+        self.examples = examples            # {param: gen(config, rng, n)} domain-specific inputs for the bounded native search
 
 
 def call_by_names(fn, avail):
